@@ -1401,6 +1401,14 @@ func main() {
 	writeIfChanged(filepath.Join(*out, "GenRelaySites.v"), w.Bytes())
 	fmt.Printf("go2v: GenRelaySites.v %d Get sites, %d Stop sites, %d pending uses, %d decrementPending calls\n", nrs["get"], nrs["stop"], nrs["pending"], nrs["calls"])
 
+	// GenRelayIdSites.v (C08): where message ids travel in the relay files -- id arguments, id stores, frames
+	// handed on before / after the header rewrite, failRelayItem and SendSystemError sites (relayidsites.go)
+	w.Reset()
+	fmt.Fprintf(&w, header, *repo)
+	nri := root.relayIdSitesSafe(&w)
+	writeIfChanged(filepath.Join(*out, "GenRelayIdSites.v"), w.Bytes())
+	fmt.Printf("go2v: GenRelayIdSites.v %d id arguments, %d id stores, %d frame hand-overs, %d fail sites, %d SendSystemError sites\n", nri["args"], nri["stores"], nri["frames"], nri["fails"], nri["syserrs"])
+
 	// GenWaitSites.v (C05): blocking statements of the outbound call path (waitsites.go)
 	w.Reset()
 	fmt.Fprintf(&w, header, *repo)
